@@ -69,11 +69,13 @@ static long count_tmp(void)
 }
 static size_t heap_now(void) { return __sanitizer_get_current_allocated_bytes ? __sanitizer_get_current_allocated_bytes() : 0; }
 static void tpath(char *b, size_t n, const char *t) { snprintf(b, n, "%s/t%s.mtbl", rdir, t); }
-static void keyof(char *b, long k) { sprintf(b, "k%05ld", k); }
+#define KB 2100
+static long g_kpad;      /* res.kpad: every key starts with this many 'P' bytes (order unchanged) */
+static void keyof(char *b, long k) { memset(b, 'P', (size_t)g_kpad); sprintf(b + g_kpad, "k%05ld", k); }
 
 static void merge_cat(void *clos, const uint8_t *key, size_t lk, const uint8_t *v0, size_t l0, const uint8_t *v1, size_t l1, uint8_t **out, size_t *lo)
 {
-	int *failkey = clos; char kb[16];
+	int *failkey = clos; char kb[KB];
 	if (failkey && *failkey >= 0) { keyof(kb, *failkey); if (lk == strlen(kb) && !memcmp(key, kb, lk)) { *out = NULL; *lo = 0; return; } }
 	*out = malloc(l0 + l1 + 1); memcpy(*out, v0, l0); memcpy(*out + l0, v1, l1); *lo = l0 + l1;
 }
@@ -126,9 +128,13 @@ int ops_res(char **a, int na)
 		for (int i = 0; i < 64; i++) if (R[i].k != R_NONE) rdestroy(&R[i]);
 		snprintf(rdir, sizeof rdir, "%s/res", vf_tmpdir); mkdir(rdir, 0700);
 		snprintf(rtmp, sizeof rtmp, "%s/res/tmp", vf_tmpdir); mkdir(rtmp, 0700);
-		vf_min_block_size = 64; vf_min_sorter_memory = 64;
+		vf_min_block_size = 64; vf_min_sorter_memory = 64; g_kpad = 0;
 		fflush(stdout);
 		base_fds = count_fds(); base_maps = vf_mmap_live; base_heap = heap_now();
+		puts("ok"); return 0;
+	}
+	if (!strcmp(op, "res.kpad") && na == 2) {
+		g_kpad = atol(a[1]); if (g_kpad < 0 || g_kpad > KB - 32) g_kpad = 0;
 		puts("ok"); return 0;
 	}
 	if (!strcmp(op, "res.table") && na >= 5) {
@@ -140,7 +146,7 @@ int ops_res(char **a, int na)
 		mtbl_writer_options_set_compression(wo, (mtbl_compression_type)codec);
 		struct mtbl_writer *w = mtbl_writer_init(p, wo); mtbl_writer_options_destroy(&wo);
 		if (!w) { puts("null"); return 0; }
-		long n = atol(a[2]), stride = atol(a[3]), off = atol(a[4]); char kb[16]; char *vb = malloc(64 + (size_t)vlen);
+		long n = atol(a[2]), stride = atol(a[3]), off = atol(a[4]); char kb[KB]; char *vb = malloc(64 + (size_t)vlen);
 		for (long i = 0; i < n; i++) {
 			keyof(kb, i * stride + off); int m = sprintf(vb, "v%s.%ld;", a[1], i);
 			memset(vb + m, 'z', (size_t)vlen);
@@ -191,7 +197,7 @@ int ops_res(char **a, int na)
 		puts(o->p ? "ok" : "null"); return 0;
 	}
 	if (!strcmp(op, "res.wadd") && na == 4 && o->k == R_WRITER) {
-		char kb[16]; keyof(kb, atol(a[2])); size_t vl = atol(a[3]); uint8_t *v = malloc(vl + 1); memset(v, 'v', vl);
+		char kb[KB]; keyof(kb, atol(a[2])); size_t vl = atol(a[3]); uint8_t *v = malloc(vl + 1); memset(v, 'v', vl);
 		mtbl_res r = mtbl_writer_add(o->p, (uint8_t *)kb, strlen(kb), v, vl); free(v);
 		puts(r == mtbl_res_success ? "ok" : "fail"); return 0;
 	}
@@ -219,7 +225,7 @@ int ops_res(char **a, int na)
 		puts("ok"); return 0;
 	}
 	if (!strcmp(op, "res.sadd") && na == 4 && o->k == R_SORTER) {
-		char kb[16]; keyof(kb, atol(a[2])); size_t vl = atol(a[3]); uint8_t *v = malloc(vl + 1); memset(v, 's', vl);
+		char kb[KB]; keyof(kb, atol(a[2])); size_t vl = atol(a[3]); uint8_t *v = malloc(vl + 1); memset(v, 's', vl);
 		mtbl_res r = mtbl_sorter_add(o->p, (uint8_t *)kb, strlen(kb), v, vl); free(v);
 		puts(r == mtbl_res_success ? "ok" : "fail"); return 0;
 	}
@@ -251,7 +257,7 @@ int ops_res(char **a, int na)
 	if (!strcmp(op, "res.fsreload") && na == 2 && o->k == R_FILESET) { mtbl_fileset_reload_now(o->p); puts("ok"); return 0; }
 	if (!strcmp(op, "res.iter") && na >= 4) {
 		const struct mtbl_source *s = source_of(&R[atoi(a[2])]); if (!s) return -1;
-		char k0[16] = "", k1[16] = ""; if (na > 4) keyof(k0, atol(a[4])); if (na > 5) keyof(k1, atol(a[5]));
+		char k0[KB] = "", k1[KB] = ""; if (na > 4) keyof(k0, atol(a[4])); if (na > 5) keyof(k1, atol(a[5]));
 		struct mtbl_iter *it = NULL;
 		if (!strcmp(a[3], "iter")) it = mtbl_source_iter(s);
 		else if (!strcmp(a[3], "get")) it = mtbl_source_get(s, (uint8_t *)k0, strlen(k0));
@@ -266,7 +272,7 @@ int ops_res(char **a, int na)
 		(void)got; puts("ok"); return 0;
 	}
 	if (!strcmp(op, "res.seek") && na == 3 && o->k == R_ITER) {
-		char kb[16]; keyof(kb, atol(a[2])); if (o->p) mtbl_iter_seek(o->p, (uint8_t *)kb, strlen(kb));
+		char kb[KB]; keyof(kb, atol(a[2])); if (o->p) mtbl_iter_seek(o->p, (uint8_t *)kb, strlen(kb));
 		puts("ok"); return 0;
 	}
 	if (!strcmp(op, "res.destroy") && na == 2) { rdestroy(o); puts("ok"); return 0; }
